@@ -11,6 +11,8 @@ REPOS = ["a", "a/b", "proj/app"]
 TAGS = ["t1", "t2", "v1.0", "latest", "T_x-9"]
 BLOBS = [b"", b"{}", b"hello", b"layer-one-data", b"\x00\x01\x02\xff binary", b"L" * 300]
 ATYPES = ["application/vnd.example.sbom", "application/vnd.example.sig"]
+# artifact types are opaque strings, compared as they are: letter case, parameters and blanks are part of them
+ODD_ATYPES = ["application/vnd.example.SBOM.v1+json", "application/vnd.example.sig; v=1", " application/vnd.example.sig", "Application/Vnd.Example.Sbom"]
 FOREIGN = "application/vnd.oci.image.layer.nondistributable.v1.tar"
 
 DEFAULT_PROFILE = dict(blob=3, chunked=3, mount=1, image=4, index=2, artifact=2, mread=3, bread=2, tags=2,
@@ -267,7 +269,7 @@ class World:
         ann = None
         if artifact:
             cmt = rng.choice([MT_EMPTY, ATYPES[0], MT_CFG])
-            at = rng.choice([None, ATYPES[0], ATYPES[1]])
+            at = rng.choice([None, ATYPES[0], ATYPES[1]]) if rng.random() < 0.8 else rng.choice(ODD_ATYPES)
             subject = self.pick_subject(repo)
             ann = rng.choice([None, {"k": "v"}, {"org.example.a": "1", "z": ""}, {}])
         mt_field = rng.choice([MT_OCI_M, MT_OCI_M, MT_OCI_M, None, MT_DOCK_M])
@@ -524,7 +526,7 @@ class World:
             s = rng.choice(subs)
         else:
             s = rng.choice([dg("sha256", b"no-referrers"), "sha256:bad", "tag"])
-        flt = rng.choice([None, None, ATYPES[0], ATYPES[1], MT_EMPTY, MT_CFG, "nomatch"])
+        flt = rng.choice([None, None, ATYPES[0], ATYPES[1], MT_EMPTY, MT_CFG, "nomatch"] + ODD_ATYPES[:2] + [rng.choice(ODD_ATYPES)])
         if rng.random() < 0.1:
             repo = "never/used"
         self.add(referrers(repo, s, flt))
